@@ -104,6 +104,7 @@ def run_cases(chk, names, prefix="equiv", replay_fn=None):
     jobs = max(1, min(chk.jobs, len(tasks)))
     if jobs > 1 and len(tasks) > 8:
         ctx = mp.get_context("fork")
+        import gc; gc.collect(); gc.freeze()  # forked workers then touch (copy) far fewer pages
         with ctx.Pool(jobs) as pool:
             results = pool.map(_work, tasks, chunksize=max(1, len(tasks) // (jobs * 8)))
     else:
